@@ -60,11 +60,14 @@ type extraInputs struct {
 }
 
 type lexGrammar struct {
-	Family string
-	Conds  []cond // Conds[0] is "initial"
-	Rules  []rule
-	Extra  *extraInputs
-	Tags   []string
+	// On / Off: option bits this grammar should (not) have in the quick tier's single subset (the
+	// interesting interaction, or the subsets under which the compiler accepts it); see buildGrammars
+	On, Off int
+	Family  string
+	Conds   []cond // Conds[0] is "initial"
+	Rules   []rule
+	Extra   *extraInputs
+	Tags    []string
 }
 
 func (r *rule) pattern() string {
@@ -468,8 +471,8 @@ func craftedGrammars() []*lexGrammar {
 	add(fam("class", idRule(plus(rxref.Alt(lits("😀"), cls(false, 'a', 'z')))), R("kwe", lits("😀")), R("kwae", lits("a😀")).prio(1), kwp("a", 1), wsRule()))
 	add(fam("class", idRule(plus(cls(false, 'a', 'b', ' ', ' ', '\n', '\n'))), R("kwnl", lits("\n")), R("kwsn", lits(" \n")), R("kwa", lits("a")).prio(1), R("t0", lits("A"))))
 	add(fam("class", idRule(plus(rxref.Alt(lits("😀"), lits("é"), cls(false, 'a', 'b')))), R("kwe", lits("😀")), R("kwee", lits("😀😀")), R("kwx", lits("é")).prio(1), R("sp", lits(" ")).space()))
-	add(fam("class", idRule(az()), kw("ab"), kw("b"), R("x", lits("ab AA")), wsRule())) // backtracking restores the keyword hash
-	add(fam("class", idRule(az()), kw("ab"), kw("a"), R("x", lits("ab\nA")), wsRule())) // … across a newline
+	add(fam("class", idRule(az()), kw("ab"), kw("b"), R("x", lits("ab AA")), wsRule())).Tags = []string{"class+backtracking"} // backtracking restores the keyword hash
+	add(fam("class", idRule(az()), kw("ab"), kw("a"), R("x", lits("ab\nA")), wsRule())).Tags = []string{"class+backtracking"} // … across a newline
 	add(fam("class", idRule(az()), kw("a"), kw("ab"), R("x", lits("abbA")))).Tags = []string{"class+backtracking"}
 	add(&lexGrammar{Family: "class", Conds: conds(incl("alt")), Rules: []rule{
 		idRule(az()), kw("ab"), kw("a"), R("go", lits("A")).in(0).to(1), R("back", lits("A")).in(1).to(0), R("t1", lits("bA")).in(1), wsRule()}})
@@ -576,6 +579,57 @@ func craftedGrammars() []*lexGrammar {
 	bt(fam("backtrack", R("t0", lits("a")), R("t1", lits("aba")), R("t2", lits("ababA"))))
 	bt(fam("backtrack", R("t0", lits("a")), R("t0", lits("abb")), R("t1", lits("b")))) // shared token + backtracking
 	bt(fam("backtrack", R("t0", lits("é")), R("t1", lits("éé😀")), R("invalid_token", lits("😀"))))
+	// Preferred option bits for the single subset of the quick tier.
+	nClass, nMaps, nBT := 0, 0, 0
+	for _, g := range gs {
+		tagged := func(t string) bool {
+			for _, x := range g.Tags {
+				if x == t {
+					return true
+				}
+			}
+			return false
+		}
+		switch {
+		case g.Family == "class":
+			nClass++
+			nonASCII := false
+			for _, r := range g.Rules {
+				if t, ok := constOf(r.AST, rxref.Opts{}); ok && !r.Class && len(t) != len([]rune(t)) {
+					nonASCII = true
+				}
+			}
+			switch {
+			case tagged("class+backtracking"):
+				g.Off = optNonBacktracking | optCaseInsensitive
+			case nonASCII && nClass%3 != 0:
+				g.On, g.Off = optScanBytes, optCaseInsensitive // keyword hashing over bytes
+			case g.plausibleUnder(optCaseInsensitive) && nClass%2 == 0:
+				g.On = optCaseInsensitive // keywords without case variants stay keywords
+			default:
+				g.Off = optCaseInsensitive // letter keywords are no constants under folding: rejected
+			}
+		case g.Family == "maps":
+			nMaps++
+			if nMaps%5 != 0 {
+				g.Off = optScanBytes // characters above 0xff are rejected in byte mode
+			}
+		case tagged("backtracking"):
+			nBT++
+			if nBT%4 != 0 {
+				g.Off = optNonBacktracking
+			}
+		}
+		if tagged("backtracking") || tagged("class+backtracking") {
+			for _, r := range g.Rules {
+				if t, ok := constOf(r.AST, rxref.Opts{}); ok && len(t) > 1 && strings.Contains(t, "\n") {
+					// backtracking across a newline: line and column have to be restored
+					g.On |= optTokenLine | optTokenColumn
+					g.Off |= optNonBacktracking
+				}
+			}
+		}
+	}
 	return gs
 }
 
@@ -639,18 +693,54 @@ func buildGrammars() []*lexGrammar {
 		}
 		lanes = append(lanes, l)
 	}
-	var out []*lexGrammar
+	var natural []*lexGrammar
 	for round := 0; ; round++ {
 		any := false
 		for _, l := range lanes {
 			if round < len(l) {
-				out = append(out, l[round])
+				natural = append(natural, l[round])
 				any = true
 			}
 		}
 		if !any {
 			break
 		}
+	}
+	// Slotting: position i gets option subset i mod 32 in pass 0. Grammars with preferred bits
+	// take the nearest free position whose subset fits, the others fill the remaining positions
+	// in order. Every position is filled, so every subset is still used by >= floor(N/32) grammars.
+	n := len(natural)
+	out := make([]*lexGrammar, n)
+	for i, g := range natural {
+		if g.On == 0 && g.Off == 0 {
+			continue
+		}
+		for d := 0; d < n; d++ {
+			s := (i + d) % n
+			if out[s] == nil && s%32&g.On == g.On && s%32&g.Off == 0 {
+				out[s] = g
+				break
+			}
+		}
+	}
+	next := 0
+	for _, g := range natural {
+		if g.On != 0 || g.Off != 0 {
+			placed := false
+			for _, o := range out {
+				if o == g {
+					placed = true
+					break
+				}
+			}
+			if placed {
+				continue
+			}
+		}
+		for out[next] != nil {
+			next++
+		}
+		out[next] = g
 	}
 	return out
 }
